@@ -101,6 +101,194 @@ def render_oracle(rt, dp, ii, nd, ni):
     return oracle
 
 
+def sel(arr, idx):
+    """arr[idx] for a symbolic index (z3 term): nested ite"""
+    r = B64(arr[-1])
+    for k in range(len(arr) - 2, -1, -1):
+        r = z3.If(B64(idx) == k, B64(arr[k]), r)
+    return r
+
+
+def distinct_lt(vals, n):
+    return [z3.ULT(B64(v), n) for v in vals] + ([z3.Distinct(*[B64(v) for v in vals])] if len(vals) > 1 else [])
+
+
+def row_of(dp, k):
+    for i in range(len(dp) - 1):
+        if dp[i] <= k < dp[i + 1]:
+            return i
+    raise Exception('row_of')
+
+
+def render2_oracle(rt, dp1, ii1, dp2, ii2, nd, nm, ni):
+    nx1, nx2 = dp1[-1], dp2[-1]
+    transposed = rt in (4, 5, 6, 7); injective = rt in (2, 3, 6, 7); srt = rt in (1, 3, 5, 7)
+    ond_exp, oni_exp = (ni, nd) if transposed else (nd, ni)
+    nout = nx1 * max(nx2, 1) if nx2 else 0
+    nout = min(nout, nx1 * nx2)
+
+    def oracle(get, rv, st, ex):
+        props = []
+        ond, oni, onidx = B64(get('ond', 0)), B64(get('oni', 0)), B64(get('onidx', 0))
+        props.append(('domain size', ond == ond_exp)); props.append(('image size', oni == oni_exp))
+        O = [B64(get('odp', j)) for j in range(ond_exp + 1)]
+        OI = [B64(get('oii', k)) for k in range(nout)]
+        props.append(('ptr[0] == 0', O[0] == 0)); props.append(('ptr[last] == index count', O[ond_exp] == onidx)); props.append(('index count bounded', z3.ULE(onidx, nout)))
+        for j in range(ond_exp):
+            props.append(('ptr monotone %d' % j, z3.ULE(O[j], O[j + 1])))
+        for a in range(ond_exp):
+            for b in range(oni_exp):
+                i, j = (b, a) if transposed else (a, b)
+                # number of paths i -> m -> j
+                cin = count([z3.And(B64(ii1[k1]) == row_of(dp2, k2), B64(ii2[k2]) == j) for k1 in range(dp1[i], dp1[i + 1]) for k2 in range(nx2)])
+                cout = count([z3.And(z3.ULE(O[a], k), z3.ULT(k, O[a + 1]), OI[k] == b) for k in range(nout)])
+                props.append((('set membership' if injective else 'path multiplicity') + ' (%d,%d)' % (a, b), z3.If(cin > 0, cout == 1, cout == 0) if injective else cin == cout))
+        if srt:
+            for a in range(ond_exp):
+                for k in range(nout - 1):
+                    props.append(('sorted row %d pos %d' % (a, k), z3.Implies(z3.And(z3.ULE(O[a], k), z3.ULT(k + 1, O[a + 1])), z3.ULT(OI[k], OI[k + 1]) if injective else z3.ULE(OI[k], OI[k + 1]))))
+        return props
+    return oracle
+
+
+def sort_oracle(dp, ii, nd, ni):
+    nx = dp[-1]
+
+    def oracle(get, rv, st, ex):
+        props = [('domain size', B64(get('ond', 0)) == nd), ('image size', B64(get('oni', 0)) == ni), ('index count', B64(get('onidx', 0)) == nx)]
+        OI = [B64(get('oii', k)) for k in range(nx)]
+        for i in range(nd + 1):
+            props.append(('ptr unchanged %d' % i, B64(get('odp', i)) == dp[i]))
+        for i in range(nd):
+            for j in range(ni):
+                props.append(('row %d keeps multiplicity of %d' % (i, j), count([B64(ii[k]) == j for k in range(dp[i], dp[i + 1])]) == count([OI[k] == j for k in range(dp[i], dp[i + 1])])))
+            for k in range(dp[i], dp[i + 1] - 1):
+                props.append(('row %d ascending at %d' % (i, k), z3.ULE(OI[k], OI[k + 1])))
+        return props
+    return oracle
+
+
+def degree_oracle(dp, nd):
+    def oracle(get, rv, st, ex):
+        props = [('max degree', B64(get('odeg', 0)) == max([dp[i + 1] - dp[i] for i in range(nd)] + [0]))]
+        for i in range(nd):
+            props.append(('degree of node %d' % i, B64(get('odeg', 1 + i)) == dp[i + 1] - dp[i]))
+        return props
+    return oracle
+
+
+def permute_oracle(dp, ii, pd, pi, nd, ni):
+    nx = dp[-1]
+
+    def oracle(get, rv, st, ex):
+        props = [('domain size', B64(get('ond', 0)) == nd), ('image size', B64(get('oni', 0)) == ni), ('index count', B64(get('onidx', 0)) == nx)]
+        O = [B64(get('odp', j)) for j in range(nd + 1)]; OI = [B64(get('oii', k)) for k in range(nx)]
+        props.append(('ptr[0] == 0', O[0] == 0))
+        for a in range(nd):
+            props.append(('ptr monotone %d' % a, z3.ULE(O[a], O[a + 1])))
+            # new row a is old row pd[a] with every image index j relabelled to pi[j]
+            for i in range(nd):
+                props.append(('row length new %d = old %d' % (a, i), z3.Implies(B64(pd[a]) == i, O[a + 1] - O[a] == dp[i + 1] - dp[i])))
+                for b in range(ni):
+                    cin = count([sel(pi, ii[k]) == b for k in range(dp[i], dp[i + 1])])
+                    cout = count([z3.And(z3.ULE(O[a], k), z3.ULT(k, O[a + 1]), OI[k] == b) for k in range(nx)])
+                    props.append(('relabelled multiplicity new(%d,%d) from old row %d' % (a, b, i), z3.Implies(B64(pd[a]) == i, cin == cout)))
+        props.append(('ptr[last]', O[nd] == nx))
+        return props
+    return oracle
+
+
+def sym_swap(x, i, j):
+    """x with positions i (concrete) and j (symbolic) swapped"""
+    xi, xj = x[i], sel(x, j)
+    return [z3.If(B64(j) == k, xi, x[k]) if k != i else xj for k in range(len(x))]
+
+
+def perm_oracle(n, ctype, v, data):
+    def oracle(get, rv, st, ex):
+        P = [B64(get('operm', i)) for i in range(n)]; S = [B64(get('oswap', i)) for i in range(n)]; Q = [B64(get('oinvperm', i)) for i in range(n)]
+        A = [B64(get('oapplied', i)) for i in range(n)]; Ai = [B64(get('oapplied_inv', i)) for i in range(n)]; I = [B64(get('oinsitu', i)) for i in range(n)]; Ii = [B64(get('oinsitu_inv', i)) for i in range(n)]
+        D = [B64(d) for d in data]
+        props = [('perm in range %d' % i, z3.ULT(P[i], n)) for i in range(n)]
+        if n > 1:
+            props.append(('perm is a bijection', z3.Distinct(*P)))
+        for i in range(n):
+            props.append(('swap position valid %d' % i, z3.And(z3.UGE(S[i], i), z3.ULT(S[i], n))))
+            props.append(('inverse undoes perm %d' % i, sel(Q, P[i]) == i))
+            props.append(('apply: y[i] = x[perm[i]] %d' % i, A[i] == sel(D, P[i])))
+            props.append(('apply inverse: y[perm[i]] = x[i] %d' % i, sel(Ai, P[i]) == D[i]))
+            props.append(('in-situ == copying (forward) %d' % i, I[i] == A[i]))
+            props.append(('in-situ == copying (inverse) %d' % i, Ii[i] == Ai[i]))
+        if ctype == 2:
+            props += [('perm == input %d' % i, P[i] == B64(v[i])) for i in range(n)]
+        if ctype == 4:
+            props += [('perm[inv input[i]] == i %d' % i, sel(P, v[i]) == i) for i in range(n)]
+        if ctype in (3, 5):
+            x = list(D)
+            for i in range(n - 1):
+                x = sym_swap(x, i, v[i])
+            tgt = I if ctype == 3 else Ii
+            props += [('swap semantics %d' % i, tgt[i] == x[i]) for i in range(n)]
+            if ctype == 3:
+                props += [('swap array kept %d' % i, S[i] == B64(v[i])) for i in range(n - 1)]
+        return props
+    return oracle
+
+
+def concat_oracle(n, p1, p2):
+    def oracle(get, rv, st, ex):
+        return [('concat: P3[i] = P2[P1[i]] %d' % i, B64(get('operm', i)) == sel(p2, p1[i])) for i in range(n)]
+    return oracle
+
+
+def symmetric_constraints(dp, ii, nd):
+    """adjacency relation is symmetric: j in row i  <=>  i in row j"""
+    cons = []
+    for i in range(nd):
+        for j in range(nd):
+            a = z3.Or([B64(ii[k]) == j for k in range(dp[i], dp[i + 1])] + [z3.BoolVal(False)])
+            b = z3.Or([B64(ii[k]) == i for k in range(dp[j], dp[j + 1])] + [z3.BoolVal(False)])
+            cons.append(a == b)
+    return cons
+
+
+def coloring_oracle(dp, ii, nd, with_order, order):
+    nx = dp[-1]
+
+    def oracle(get, rv, st, ex):
+        props = [('node count', (B64(rv) if irsym.is_sym(rv) else z3.BitVecVal(rv, 64)) == nd)]
+        Cc = [B64(get('ocol', i)) for i in range(nd)]; nc = B64(get('oncol', 0))
+        for i in range(nd):
+            props.append(('colour in range %d' % i, z3.ULT(Cc[i], nc)))
+            for k in range(dp[i], dp[i + 1]):
+                props.append(('adjacent nodes differ: node %d, entry %d' % (i, k), z3.Implies(B64(ii[k]) != i, Cc[i] != sel(Cc, ii[k]))))
+        props.append(('at most nd colours', z3.ULE(nc, max(nd, 0))))
+        # partition graph: domain = colours, image = nodes, every node listed exactly once under its colour
+        props += [('partition: domain size == colours', B64(get('pnd', 0)) == nc), ('partition: image size == nodes', B64(get('pni', 0)) == nd), ('partition: index count == nodes', B64(get('pnidx', 0)) == nd)]
+        PD = [B64(get('pdp', c)) for c in range(nd + 1)]; PI = [B64(get('pii', k)) for k in range(nd)]
+        if nd:
+            props.append(('partition ptr[0]', PD[0] == 0))
+        for c in range(nd):
+            props.append(('partition ptr monotone %d' % c, z3.Implies(z3.ULT(c, nc), z3.ULE(PD[c], PD[c + 1]))))
+        for i in range(nd):
+            props.append(('node %d listed exactly once' % i, count([PI[k] == i for k in range(nd)]) == 1))
+            for k in range(nd):
+                for c in range(nd):
+                    props.append(('node at pos %d lies in the block of its colour %d' % (k, c), z3.Implies(z3.And(PI[k] == i, Cc[i] == c, z3.ULT(c, nc)), z3.And(z3.ULE(PD[c], k), z3.ULT(k, PD[c + 1])))))
+        return props
+    return oracle
+
+
+def cm_oracle(nd):
+    def oracle(get, rv, st, ex):
+        P = [B64(get('operm', i)) for i in range(nd)]
+        props = [('size', (B64(rv) if irsym.is_sym(rv) else z3.BitVecVal(rv, 64)) == nd)] + [('perm in range %d' % i, z3.ULT(P[i], nd)) for i in range(nd)]
+        if nd > 1:
+            props.append(('ordering is a bijection', z3.Distinct(*P)))
+        return props
+    return oracle
+
+
 def main():
     chk = C.Check('C19')
     quick = chk.tier == 'quick'
@@ -123,6 +311,61 @@ def main():
                     transposed = rt in (4, 5, 6, 7)
                     inputs = graph_out_sizes({'rt': rt, 'nd': nd, 'ni': ni, 'nidx': nx, 'dp': dp, 'ii': ii}, ni if transposed else nd, nx)
                     jobs.append(('render rt=%d nd=%d ni=%d profile=%s' % (rt, nd, ni, dp), 'w_graph_render', inputs, base, render_oracle(rt, dp, ii, nd, ni), {}))
+
+    # ---- composite render (two adjactors), sort, degree, permuted copy
+    N2 = 2
+    for rt in range(8):
+        for dp1 in profiles(N2, 2):
+            for dp2 in profiles(N2, 2):
+                nx1, nx2 = dp1[-1], dp2[-1]
+                if not quick or (nx1 + nx2 <= 3):
+                    ii1 = [z3.BitVec('a%d' % k, 64) for k in range(nx1)]; ii2 = [z3.BitVec('b%d' % k, 64) for k in range(nx2)]
+                    base = [z3.ULT(v, N2) for v in ii1] + [z3.ULT(v, N2) for v in ii2]
+                    tr = rt >= 4
+                    inputs = graph_out_sizes({'rt': rt, 'nd': N2, 'nm': N2, 'nidx1': nx1, 'dp1': dp1, 'ii1': ii1, 'ni': N2, 'nidx2': nx2, 'dp2': dp2, 'ii2': ii2}, N2, nx1 * nx2)
+                    jobs.append(('render2 rt=%d profiles=%s x %s' % (rt, dp1, dp2), 'w_graph_render2', inputs, base, render2_oracle(rt, dp1, ii1, dp2, ii2, N2, N2, N2), {}))
+    for nd in range(1, ND + 1):
+        for dp in profiles(nd, NX):
+            nx = dp[-1]; ni = NI
+            ii = [z3.BitVec('ii%d' % k, 64) for k in range(nx)]; base = [z3.ULT(v, ni) for v in ii]
+            jobs.append(('sort nd=%d profile=%s' % (nd, dp), 'w_graph_sort', graph_out_sizes({'nd': nd, 'ni': ni, 'nidx': nx, 'dp': dp, 'ii': ii}, nd, nx), base, sort_oracle(dp, ii, nd, ni), {}))
+            inp = {'nd': nd, 'ni': ni, 'nidx': nx, 'dp': dp, 'ii': ii, 'odeg': nd + 1}
+            jobs.append(('degree nd=%d profile=%s' % (nd, dp), 'w_graph_degree', inp, base, degree_oracle(dp, nd), {}))
+            pd = [z3.BitVec('pd%d' % k, 64) for k in range(nd)]; pi = [z3.BitVec('pi%d' % k, 64) for k in range(ni)]
+            jobs.append(('permute nd=%d ni=%d profile=%s' % (nd, ni, dp), 'w_graph_permute', graph_out_sizes({'nd': nd, 'ni': ni, 'nidx': nx, 'dp': dp, 'ii': ii, 'pd': pd, 'pi': pi}, nd, nx),
+                         base + distinct_lt(pd, nd) + distinct_lt(pi, ni), permute_oracle(dp, ii, pd, pi, nd, ni), {}))
+    # ---- permutations from every representation
+    for n in range(1, (3 if quick else 4) + 1):
+        for ctype in (2, 3, 4, 5):
+            v = [z3.BitVec('v%d' % k, 64) for k in range(n)]; data = [z3.BitVec('x%d' % k, 64) for k in range(n)]
+            base = distinct_lt(v, n) if ctype in (2, 4) else [z3.And(z3.UGE(v[i], i), z3.ULT(v[i], n)) for i in range(n)]
+            inp = {'n': n, 'ctype': ctype, 'v': v, 'data': data}
+            inp.update({nm: n for nm in ('operm', 'oswap', 'oinvperm', 'oapplied', 'oapplied_inv', 'oinsitu', 'oinsitu_inv')})
+            jobs.append(('permutation n=%d ctype=%d' % (n, ctype), 'w_perm', inp, base, perm_oracle(n, ctype, v, data), {}))
+        p1 = [z3.BitVec('p%d' % k, 64) for k in range(n)]; p2 = [z3.BitVec('q%d' % k, 64) for k in range(n)]
+        jobs.append(('permutation concat n=%d' % n, 'w_perm_concat', {'n': n, 'p1': p1, 'p2': p2, 'operm': n}, distinct_lt(p1, n) + distinct_lt(p2, n), concat_oracle(n, p1, p2), {}))
+    # ---- colouring and Cuthill-McKee on symmetric graphs
+    NC, NXC = (3, 4) if quick else (4, 6)
+    for nd in range(1, NC + 1):
+        for dp in profiles(nd, NXC):
+            nx = dp[-1]
+            ii = [z3.BitVec('ii%d' % k, 64) for k in range(nx)]
+            base = [z3.ULT(v, nd) for v in ii] + symmetric_constraints(dp, ii, nd)
+            s0 = z3.Solver(); s0.add(*base)
+            if s0.check() != z3.sat:
+                continue   # no symmetric graph has this degree sequence
+            for wo in (0, 1):
+                order = [z3.BitVec('o%d' % k, 64) for k in range(nd)] if wo else [0] * nd
+                inp = {'nd': nd, 'nidx': nx, 'dp': dp, 'ii': ii, 'with_order': wo, 'order': order, 'ocol': nd, 'oncol': 1, 'pnd': 1, 'pni': 1, 'pnidx': 1, 'pdp': nd + 2, 'pii': max(nd, 1)}
+                jobs.append(('coloring nd=%d profile=%s order=%d' % (nd, dp, wo), 'w_coloring', inp, base + (distinct_lt(order, nd) if wo else []), coloring_oracle(dp, ii, nd, wo, order), {}))
+            if nd <= 3 or not quick:
+                for rev in (0, 1):
+                    for rtype in (0, 1, 2):
+                        for stype in (0, 1, 2):
+                            if quick and rev == 1 and stype != 0:
+                                continue
+                            inp = {'nd': nd, 'nidx': nx, 'dp': dp, 'ii': ii, 'reverse': rev, 'rtype': rtype, 'stype': stype, 'operm': nd, 'olayers': nd + 2, 'onlayers': 1}
+                            jobs.append(('cuthill-mckee nd=%d profile=%s rev=%d root=%d sort=%d' % (nd, dp, rev, rtype, stype), 'w_cuthill_mckee', inp, base, cm_oracle(nd), {}))
     return run_jobs(chk, mod, native, jobs, info, quick)
 
 
